@@ -27,7 +27,7 @@ func init() {
 	register(&mon.Prop{
 		ID:    "C17",
 		Level: "exploration",
-		Rule: "token sets T with |T| in {0,1,2,5,40} (mixed delegations/invocations, all key kinds, insertion order permuted); FULL matrix 4 formats x {bytes, stream} writer x {bytes, stream} reader for every T, plus a size sweep (a token padded so that its CAR section has every length within +-3 of 512, 1024, ... 16384 (65536 in thorough) bytes, in both insertion orders): reading must succeed, the key set must equal {CID of sealed bytes} (computed by the harness), every token must equal the direct decode of its sealed bytes and be retrievable through GetToken / GetDelegation / GetInvocation / GetAll*. " +
+		Rule: "token sets T with |T| in {0,1,2,5,40} (mixed delegations/invocations, all key kinds, insertion order permuted); FULL matrix 4 formats x {bytes, stream} writer x {bytes, stream} reader for every T, set cardinalities across the framing thresholds (23/24/25, 257; thorough 255..257, 1023..1025, 4097, 65535..65537) with a corruption planted in the last / a late entry, plus a size sweep (a token padded so that its CAR section has every length within +-3 of 512, 1024, ... 16384 (65536 in thorough) bytes, in both insertion orders): reading must succeed, the key set must equal {CID of sealed bytes} (computed by the harness), every token must equal the direct decode of its sealed bytes and be retrievable through GetToken / GetDelegation / GetInvocation / GetAll*. " +
 			"single-entry corruptions of containers built by the harness's own CAR/CBOR encoders: each entry in turn bit-flipped in payload and in signature (CAR: with the stale CID and with a recomputed CID), replaced by non-token bytes, truncated; CAR: entry under another entry's CID, section length off by one, the file cut right after a section's length prefix / inside its CID / inside its data / inside the header; CBOR: the file cut at several offsets, CBOR: wrong version key, extra key, non-bytes entry, non-map root; reading must fail, never return a partial or mislabelled set. " +
 			"non-trivial = |T|>=2; distinct = (set digest, format, writer, reader) / (set digest, corruption, entry).",
 		Assumptions: []string{
@@ -39,7 +39,7 @@ func init() {
 		MinEvals:    floor(1800, 50000),
 		MinDistinct: floor(800, 20000),
 		RequiredCells: func(string) []string {
-			cells := []string{"size-sweep", "foreign-cid/raw-codec", "foreign-cid/sha2-512", "foreign-cid/cidv0", "size=0", "size=1", "size=2", "size=5", "size=40", "get/delegation", "get/invocation", "get/all"}
+			cells := []string{"large", "large/n=24", "large/n=257", "corrupt/large-late-entry", "size-sweep", "foreign-cid/raw-codec", "foreign-cid/sha2-512", "foreign-cid/cidv0", "size=0", "size=1", "size=2", "size=5", "size=40", "get/delegation", "get/invocation", "get/all"}
 			for _, f := range containerNames {
 				for _, wv := range []string{"bytes", "stream"} {
 					for _, rv := range []string{"bytes", "stream"} {
@@ -246,6 +246,7 @@ func buildCborContainer(version string, entries []ref.V, extra bool) []byte {
 
 func runC17(w *mon.W) {
 	c17SizeSweep(w)
+	c17Large(w)
 	r := w.Rng
 	sizes := []int{0, 1, 2, 5, 40}
 	nsets := w.Share(w.Pick(60, 2000))
@@ -600,4 +601,117 @@ func uniqueCids(set []sealedTok) map[string]bool {
 		m[t.cid.KeyString()] = true
 	}
 	return m
+}
+
+// c17Large: set cardinalities on both sides of every length-encoding threshold of the
+// container framings (CBOR array heads at 24 / 256 / 65536 entries) and beyond any plausible
+// pre-allocation cap, through the writer x reader matrix; plus a corruption planted in the
+// LAST entry and in one in the upper half of a harness-built CAR / CBOR container, which must
+// make reading fail however many entries precede it.
+func c17Large(w *mon.W) {
+	cards := []int{23, 24, 25, 257}
+	if w.Thorough() {
+		cards = []int{23, 24, 25, 100, 255, 256, 257, 300, 1000, 1023, 1024, 1025, 4097, 65535, 65536, 65537}
+	}
+	r := w.Rng
+	var pool []sealedTok
+	grow := func(n int) bool {
+		for len(pool) < n {
+			typ := "dlg"
+			if len(pool)%7 == 3 {
+				typ = "inv"
+			}
+			iss := gen.Ed(len(pool))
+			s := gen.RandomSpec(r, typ, gen.SpecOpts{Issuer: iss, Minimal: true})
+			tk, err := s.Build()
+			if err != nil {
+				return false
+			}
+			sealed, _, err := tk.ToSealed(iss.Priv)
+			if err != nil {
+				return false
+			}
+			t0, _, err := token.FromSealed(sealed)
+			if err != nil {
+				return false
+			}
+			pool = append(pool, sealedTok{s, sealed, ref.CID(sealed), gen.Fields(t0)})
+		}
+		return true
+	}
+	for ci, n := range cards {
+		if !w.Mine(ci) {
+			continue
+		}
+		if !grow(n) {
+			w.Inconclusive("C17 large set could not be built")
+			return
+		}
+		set := pool[:n]
+		wr := container.NewWriter()
+		for _, i := range r.Perm(n) {
+			wr.AddSealed(set[i].cid, set[i].sealed)
+		}
+		wv := map[bool]string{false: "bytes", true: "stream"}
+		for format := 0; format < 4; format++ {
+			for _, wstream := range []bool{false, true} {
+				data, err := writeContainer(wr, format, wstream)
+				w.Eval(1)
+				if err != nil {
+					w.Violate("write-fails/large/"+containerNames[format], fmt.Sprintf("writing a container of %d tokens failed: %v", n, err), map[string]any{"tokens": n})
+					continue
+				}
+				for _, rstream := range []bool{false, true} {
+					if n > 5000 && wstream != rstream {
+						continue
+					}
+					rd, err := readContainer(data, format, rstream, func(b []byte) io.Reader { return bytes.NewReader(b) })
+					w.Eval(1)
+					w.Cover("large")
+					w.Cover(fmt.Sprintf("large/n=%d", n))
+					w.Distinct("large", n, format, wstream, rstream)
+					where := fmt.Sprintf("%s/large/w=%s/r=%s", containerNames[format], wv[wstream], wv[rstream])
+					desc := func() map[string]any {
+						return map[string]any{"format": containerNames[format], "tokens": n, "writer_stream": wstream, "reader_stream": rstream, "note": "minimal Ed25519 tokens; first token hex", "first_token_hex": mon.Hex(set[0].sealed)}
+					}
+					if err != nil {
+						m := desc()
+						m["error"] = err.Error()
+						w.Violate("roundtrip/read-fails/large/"+containerNames[format], fmt.Sprintf("a %s container of %d tokens written by the library cannot be read back: %v", containerNames[format], n, err), m)
+						continue
+					}
+					checkReader(w, rd, set, where, desc)
+				}
+			}
+		}
+		// corruption late in a harness-built container
+		for _, victim := range []int{n - 1, n/2 + r.IntN(n/2)} {
+			bad := append([]byte{}, set[victim].sealed...)
+			bad[len(bad)-3] ^= 0x10
+			var bl [][2][]byte
+			var es []ref.V
+			for i, t := range set {
+				d := t.sealed
+				c := t.cid
+				if i == victim {
+					d = bad
+					c = ref.CID(bad)
+				}
+				bl = append(bl, [2][]byte{c.Bytes(), d})
+				es = append(es, ref.Bytes(d))
+			}
+			for format, data := range map[int][]byte{1: buildCAR(bl, -1, 0), 0: buildCborContainer("ctn-v1", es, false)} {
+				for _, rstream := range []bool{false, true} {
+					rd, err := readContainer(data, format, rstream, func(b []byte) io.Reader { return bytes.NewReader(b) })
+					w.Eval(1)
+					w.Cover("corrupt/large-late-entry")
+					w.Distinct("large-corrupt", n, victim, format, rstream)
+					if err == nil {
+						w.Violate("corrupt-accepted/large/"+containerNames[format], fmt.Sprintf("a %s container of %d entries whose entry %d has a flipped payload bit (signature no longer verifies) is read without error (%d tokens returned)", containerNames[format], n, victim, len(rd)),
+							map[string]any{"format": containerNames[format], "entries": n, "corrupted_entry": victim, "reader_stream": rstream, "corrupted_token_hex": mon.Hex(bad)})
+					}
+				}
+			}
+		}
+	}
 }
